@@ -104,6 +104,9 @@ func (dc *ClientDnsConnection) Close() error {
 		}
 	}
 
+	// Nothing more will arrive: wake up a Read that is waiting for data
+	dc.in.Close()
+
 	return dc.Communicator.Close()
 }
 
